@@ -298,6 +298,18 @@ class Cond:
         return f"IF[{s.g!r}]⟨{s.a!r} | {s.b!r}⟩"
 
 
+class BoolSel(Cond):
+    """`first or rest` / `first and rest` on operands that are not truth values: the selected operand; its truth is the connective"""
+    def __new__(cls, op, g, first, rest):
+        a, b = (first, rest) if op == 'or' else (rest, first)
+        if tkey(a) == tkey(b): return a
+        o = object.__new__(cls); o.g = g; o.a = a; o.b = b; o.op = op; o.first = first; o.rest = rest
+        return o
+
+    def __init__(s, *a):
+        pass
+
+
 class Comp:
     """comprehension: elt over generators [(target-atoms, iter, filters)], kind in list/set/gen/dict"""
     def __init__(s, elt, gens, kind='list'):
@@ -713,6 +725,7 @@ class Evaluator:
     def truth(s, v):
         """truthiness of a term as guard"""
         if isinstance(v, bool): return v
+        if isinstance(v, BoolSel): return s.mkbool(v.op, [v.g, s.truth(v.rest)])
         if isinstance(v, Opq) and (s.facts or s.assumed): return s.refold(v)
         if v is None: return False
         if isinstance(v, (list, tuple, dict, str)): return len(v) > 0
@@ -723,8 +736,18 @@ class Evaluator:
         return v
 
     def e_BoolOp(s, e, env, mod, depth):
-        vs = [s.truth(s.ev(v, env, mod, depth)) for v in e.values]
-        return s.mkbool('and' if isinstance(e.op, ast.And) else 'or', vs)
+        raw = [s.ev(v, env, mod, depth) for v in e.values]
+        op = 'and' if isinstance(e.op, ast.And) else 'or'
+        if all(isinstance(v, bool) or _is_boolterm(v) for v in raw):
+            return s.mkbool(op, [s.truth(v) for v in raw])
+        # `a or b` / `a and b` select one of their OPERANDS (`xs or [default]`); in a truth context (truth()) the selection is the connective
+        out = raw[-1]
+        for v in reversed(raw[:-1]):
+            t = s.truth(v)
+            if t is True: out = v if op == 'or' else out
+            elif t is False: out = out if op == 'or' else v
+            else: out = BoolSel(op, t, v, out)
+        return out
 
     def mkcmp(s, op, d: Poly):
         """comparison of d against 0, op in Gt GtE Eq NotEq; folded with sign facts when decidable"""
@@ -741,6 +764,21 @@ class Evaluator:
         elif op == 'NotEq':
             if sg == {'=0'}: return False
             if '=0' not in sg: return True
+        if op in ('Gt', 'GtE'):
+            # a length is a non-negative integer: len(x) > c / len(x) >= c / len(x) < c against a small constant is a statement about the
+            # values 0 .. c, written out so that `len(x) > 1` and `not (len(x) == 0 or len(x) == 1)` are one normal form
+            lc = _len_vs_const(d)
+            if lc is not None:
+                sign_, at_, c_ = lc          # d == sign_ * len + c_
+                L = Poly.atom(at_)
+                if sign_ == 1:    # len + c_ (>|>=) 0   <=>  len > -c_  (Gt)  /  len >= -c_ (GtE)
+                    lo = -c_ + (1 if op == 'Gt' else 0)          # len >= lo
+                    if lo <= 0: return True
+                    if lo <= 4: return s.mkbool('and', [s.mkcmp('NotEq', L - Poly.const(k_)) for k_ in range(lo)])
+                else:             # -len + c_ (>|>=) 0  <=>  len < c_ (Gt)  /  len <= c_ (GtE)
+                    hi = c_ - (1 if op == 'Gt' else 0)           # len <= hi
+                    if hi < 0: return False
+                    if hi <= 3: return s.mkbool('or', [s.mkcmp('Eq', L - Poly.const(k_)) for k_ in range(hi + 1)])
         if op in ('Eq', 'NotEq'):
             k1, k2 = d.key(), d.neg().key()
             if repr(k2) < repr(k1): d = d.neg()
@@ -866,6 +904,8 @@ class Evaluator:
         return r
 
     def e_Set(s, e, env, mod, depth):
+        if len(e.elts) == 1 and isinstance(e.elts[0], ast.Starred):
+            return s.builtin('set', [s.ev(e.elts[0].value, env, mod, depth)], {}, mod, depth)          # {*xs} is set(xs)
         return Opq('set', *s.e_Tuple(e, env, mod, depth))
 
     def e_Dict(s, e, env, mod, depth):
@@ -991,6 +1031,14 @@ class Evaluator:
                     else:
                         return out if kind in ('list', 'gen') else Opq('set', *out)
             depth_id = len(gens)
+            pos_ = _positions_of(it)
+            if pos_ is not None and isinstance(g.target, ast.Name):
+                # for i in np.flatnonzero([p(x) for x in xs]): the positions of xs whose element passes p, in order -- xs[i] is that element
+                xs_, fl0_, pred_ = pos_
+                s.assign(g.target, Poly.atom(('idx', depth_id, tkey(xs_))), env2, mod, depth)
+                fs = [s.truth(s.ev(c, env2, mod, depth)) for c in g.ifs]
+                gens.append((xs_, [_relevel(f_, 0, depth_id) for f_ in fl0_ + [pred_]] + [f for f in fs if f is not True]))
+                continue
             bound = s.bind_iter(g.target, it, env2, mod, depth, depth_id)
             fs = [s.truth(s.ev(c, env2, mod, depth)) for c in g.ifs]
             fs = [f for f in fs if f is not True]
@@ -1166,6 +1214,10 @@ class Evaluator:
         if isinstance(v, Opq) and v.k and v.k[0] in ('list', 'tuple') and len(v.k) == 2 and isinstance(v.k[1], Poly) and isinstance(k, Poly) and k.real_const() is not None:
             v = v.k[1]          # a copy of a sequence is indexed like the sequence
         if isinstance(k, Cond): return Cond(k.g, s.getitem(v, k.a), s.getitem(v, k.b))
+        if isinstance(k, Poly) and not isinstance(v, (list, tuple, dict)):
+            at_ = k.as_atom()
+            if isinstance(at_, tuple) and len(at_) == 3 and at_[0] == 'idx' and at_[2] == tkey(v):
+                return s.elem_of(v, at_[1])          # xs[i] at the position i that enumerates xs is the element itself
         if _is_boolterm(k) and isinstance(v, (tuple, list, dict)):
             # t[flag] with a truth value as index / key: the entry at 1 (True) when it holds, the entry at 0 (False) otherwise
             return s.mkcond(k, s.getitem(v, True if isinstance(v, dict) and True in v else Poly.const(1)), s.getitem(v, False if isinstance(v, dict) and False in v else Poly.const(0)))
@@ -1937,6 +1989,7 @@ class Evaluator:
                 return s.ev(st.value, env, mod, depth) if st.value is not None else None
             if isinstance(st, ast.Raise):
                 s.last_raise = s.exc_name_of(st, env, mod, depth)
+                s.raises.append({'guard': True, 'polarity': False, 'exc': s.last_raise, 'pc': tuple(s._pc)})          # a raise reached on this path
                 if s._try_depth > 0 and st.exc is not None: raise Raised(s.last_raise)
                 return RAISE
             if isinstance(st, ast.Continue): return FALL
@@ -2652,6 +2705,16 @@ def subst_key(k, old, new, old_atom=None, new_atom=None):
     return k
 
 
+def _positions_of(it):
+    """(xs, filters, predicate) when `it` is np.flatnonzero of the truth values [p(x) for x in xs]: the positions of xs at which p holds"""
+    if isinstance(it, Opq) and it.k and it.k[0] == 'list' and len(it.k) == 2: it = it.k[1]
+    if isinstance(it, Opq) and len(it.k) == 2 and it.k[0] == 'np.flatnonzero':
+        m_ = it.k[1]
+        if isinstance(m_, Comp) and m_.kind in ('list', 'gen') and len(m_.gens) == 1 and _is_boolterm(m_.elt):
+            return m_.gens[0][0], list(m_.gens[0][1]), m_.elt
+    return None
+
+
 def _fuse_iter2(it):
     """(base, filters): iterating the list comprehension [g(x) for x in base if f(x)] visits g(x) for the x of base that pass f, in order;
     the loop variable is already expressed over the element of base, so the generator is (base, [f...])"""
@@ -2690,7 +2753,7 @@ def _match_as_ifs(st):
     def test(pat):
         if isinstance(pat, ast.MatchValue): return ast.Compare(left=st.subject, ops=[ast.Eq()], comparators=[pat.value])
         if isinstance(pat, ast.MatchSingleton): return ast.Compare(left=st.subject, ops=[ast.Is()], comparators=[ast.Constant(value=pat.value)])
-        if isinstance(pat, ast.MatchSequence) and all(isinstance(p_, ast.MatchValue) for p_ in pat.patterns):
+        if isinstance(pat, ast.MatchSequence) and pat.patterns and all(isinstance(p_, ast.MatchValue) for p_ in pat.patterns):
             return ast.Compare(left=ast.Call(func=ast.Name(id='list', ctx=ast.Load()), args=[st.subject], keywords=[]), ops=[ast.Eq()],
                                comparators=[ast.List(elts=[p_.value for p_ in pat.patterns], ctx=ast.Load())])
         if isinstance(pat, ast.MatchSequence) and isinstance(st.subject, ast.Tuple) and len(st.subject.elts) == len(pat.patterns) \
@@ -2704,6 +2767,18 @@ def _match_as_ifs(st):
                     if p_.name is not None: case_binds.setdefault(id(pat), {})[p_.name] = sub_
                 else: return None
             return ast.BoolOp(op=ast.And(), values=conds) if len(conds) > 1 else (conds[0] if conds else ast.Constant(value=True))
+        if isinstance(pat, ast.MatchSequence) and not isinstance(st.subject, ast.Tuple) and not any(isinstance(p_, ast.MatchStar) for p_ in pat.patterns):
+            # case []: / case [x]: / case [a, 1]: on a sequence-valued subject: its length, then element by element (the subject expression is
+            # evaluated once per use; it is side-effect free in this code base: a name, an attribute, a comprehension)
+            sub = st.subject
+            conds = [ast.Compare(left=ast.Call(func=ast.Name(id='len', ctx=ast.Load()), args=[sub], keywords=[]), ops=[ast.Eq()], comparators=[ast.Constant(value=len(pat.patterns))])]
+            for i_, p_ in enumerate(pat.patterns):
+                item = ast.Subscript(value=sub, slice=ast.Constant(value=i_), ctx=ast.Load())
+                if isinstance(p_, ast.MatchValue): conds.append(ast.Compare(left=item, ops=[ast.Eq()], comparators=[p_.value]))
+                elif isinstance(p_, ast.MatchAs) and p_.pattern is None:
+                    if p_.name is not None: case_binds.setdefault(id(pat), {})[p_.name] = item
+                else: return None
+            return ast.BoolOp(op=ast.And(), values=conds) if len(conds) > 1 else conds[0]
         if isinstance(pat, ast.MatchOr):
             ts = [test(p_) for p_ in pat.patterns]
             return None if any(t is None for t in ts) else ast.BoolOp(op=ast.Or(), values=ts)
@@ -2816,6 +2891,21 @@ def _pair_set(v):
         if len(items) == 1 and isinstance(items[0], (tuple, list)): items = tuple(items[0])
         if len(items) == 2: return items[0], items[1]
     return None
+
+
+def _len_vs_const(d):
+    """(sign, len-atom, integer constant) when d == sign * len(x) + constant with sign = +-1, else None"""
+    if not isinstance(d, Poly): return None
+    at_, sign_, c_ = None, None, 0
+    for k, (re_, im_) in d.t.items():
+        if im_ != 0: return None
+        if k == ():
+            if re_.denominator != 1: return None
+            c_ = int(re_)
+        elif len(k) == 1 and k[0][1] == 1 and isinstance(k[0][0], tuple) and k[0][0][:1] == ('len',) and re_ in (1, -1) and at_ is None:
+            at_, sign_ = k[0][0], int(re_)
+        else: return None
+    return (sign_, at_, c_) if at_ is not None else None
 
 
 def _is_boolterm(v):
